@@ -262,7 +262,7 @@ func (k *Kernel) Sendto(wire []byte, dstPid uint32) int {
 			return 0
 		}
 	}
-	r.Payload = wire[NlmsgHdrLen:r.Len]
+	r.Payload = r.Wire[NlmsgHdrLen:r.Len] // the kernel's own copy: sendto(2) copies the datagram before it returns
 	if r.Flags&FRequest == 0 {
 		r.Malformed = "NLM_F_REQUEST not set"
 		return 0 // netlink_rcv_skb ignores non-requests
